@@ -21,7 +21,7 @@ def gen_sentence(rng: random.Random, max_elems=5, max_count=14, canonical_order=
     with 1-based indices in blocks of increasing atomic number."""
     k = rng.randint(0 if rng.random() < 0.03 else 1, max_elems)
     pool = HILL_TRAPS if rng.random() < 0.6 else ELEMENTS
-    syms = list({rng.choice(pool) for _ in range(k)})
+    syms = list(dict.fromkeys(rng.choice(pool) for _ in range(k)))  # first-seen order: no dependence on the hash seed
     counts = {}
     for s in syms:
         r = rng.random()
